@@ -797,3 +797,50 @@ M("c18-failed-with-result", "C18", "R2.well-formed-return", "execution.py",
                     result="",
                     error=ErrorObject.from_exception(e),
                 ).to_dict()""")
+
+# ----------------------------------------------------------------------------- C17
+M("c17-step-track-only-on-success", "C17", "R2.visited-on-every-exit", "context.py",
+  """        try:
+            result: T = executor.process()
+        finally:
+            self.state.track_replay(operation_id=operation_id)
+        return result
+
+    def wait(""", """        result: T = executor.process()
+        self.state.track_replay(operation_id=operation_id)
+        return result
+
+    def wait(""", desc="repaired defect re-introduced at one site")
+M("c17-first-page-only", "C17", "R3.replay-decision-sees-whole-history", "execution.py",
+  "            or invocation_input.initial_execution_state.next_marker\n", "", desc="repaired defect re-introduced")
+M("c17-log-bypasses-gate", "C17", "R1.gate-dominates-emission", "logger.py",
+  "        self._log(self._logger.error, msg, *args, extra=extra)", "        self._logger.error(msg, *args, extra=extra)")
+M("c17-gate-inverted", "C17", "R1.", "logger.py",
+  "        return not self._execution_state.is_replaying()", "        return self._execution_state.is_replaying()")
+M("c17-extra-not-merged", "C17", "R1.gate-dominates-emission", "logger.py",
+  "        merged_extra = {**self._default_extra, **(extra or {})}", "        merged_extra = {**(extra or {})}")
+M("c17-derived-logger-loses-arn", "C17", "R1.derived-logger-identifiers", "logger.py",
+  """        extra: MutableMapping[str, object] = {
+            "executionArn": info.execution_state.durable_execution_arn
+        }""", """        extra: MutableMapping[str, object] = {}""")
+M("c17-track-wrong-id", "C17", "R2.visited-on-every-exit", "context.py",
+  """        try:
+            executor.process()
+        finally:
+            self.state.track_replay(operation_id=operation_id)""", """        try:
+            executor.process()
+        finally:
+            self.state.track_replay(operation_id=name)""")
+M("c17-operation-id-key-wrong", "C17", "R1.derived-logger-identifiers", "logger.py",
+  '            extra["operationId"] = info.operation_id', '            extra["operationId"] = info.parent_id')
+M("c17-benign-finally-helper", "C17", "", "context.py",
+  """        try:
+            executor.process()
+        finally:
+            self.state.track_replay(operation_id=operation_id)""", """        try:
+            executor.process()
+        except BaseException:
+            self.state.track_replay(operation_id=operation_id)
+            raise
+        else:
+            self.state.track_replay(operation_id=operation_id)""", expect="silent")
